@@ -32,7 +32,8 @@ def run(ctx):
         d = docgen.gen_doc(rng, text_heavy=rng.chance(0.3))
         kind = 'svgdx'
         if rng.chance(0.25):
-            pro = rng.choice(['<?xml version="1.0" encoding="UTF-8"?>', '<!-- c -->', '<!-- a -->\n<!-- b -->', '<?xml version="1.0"?>\n<!-- x -->'])
+            pro = rng.choice(['<?xml version="1.0" encoding="UTF-8"?>', '<!-- c -->', '<!-- a -->\n<!-- b -->', '<?xml version="1.0"?>\n<!-- x -->',
+                              'stray text', '<![CDATA[lead]]>', '<!-- c -->\nword '])
             d = pro + rng.choice(['\n', '  \n', ' \t\n\n', '']) + d + rng.choice(['', '\n', '  \n'])
             kind = 'prologue'
         docs.append((d, kind))
